@@ -61,6 +61,8 @@ def check(model: Model, rep: Report, tier: str):
         h6(model, rep, cg)
     with rep.isolated():
         h8(model, rep, cg)
+    with rep.isolated():
+        h10(model, rep)
     from .c04 import duration_rule
     with rep.isolated():
         share_rule(rep, model, duration_rule, "C03.H9", "the duration of a block is the span of its operations whatever frame their times are reported in: listing a circuit hands "
@@ -107,6 +109,44 @@ def unique_identifier(model: Model, C: ClassInfo) -> Tuple[bool, str]:
             return True, n
         why = f"{post.qualname} does not increment {cname}.{counter} unconditionally"
     return False, why
+
+
+def h10(model: Model, rep: Report, rule: str = "C03.H10"):
+    """The node of an operation is found by identity."""
+    rep.rule(rule, "CircuitGraphBranch.get_corresponding_node(operation) answers with the node whose operation IS the given object (`is`), searched over all nodes: operations and "
+                   "sub-circuits compare by value, and listing a circuit hands sibling blocks the same link object -- a search by `==` / `in` / `index` then answers with the twin "
+                   "block's node, so what happens to a relation depends on whether the circuit was looked at before")
+    K = model.cls("CircuitGraphBranch")
+    f = K.resolve("get_corresponding_node")
+    if f is None:
+        raise AnalysisError("CircuitGraphBranch.get_corresponding_node vanished")
+    op = sym([p_ for p_ in f.param_names if p_ != f.self_name][0])
+    ev = Evaluator(model, inline_methods=False)
+    try:
+        ps = PathEnumerator(ev).function_paths(f, self_cls=K)
+    except Unsupported as e:
+        raise AnalysisError(f"get_corresponding_node: {e}")
+    construct = "CircuitGraphBranch.get_corresponding_node"
+    tests = []
+    for p in ps:
+        for e in p.events:
+            if e.kind == "loop":
+                for bp in e.extra["paths"]:
+                    tests.extend(atoms_of(bp.cond))
+        tests.extend(atoms_of(p.cond))
+        if p.value is not None:
+            tests.extend(a for a in subterms(p.value, lambda y: y[0] in ("in", "eq", "same")))
+    about_op = [a for a in tests if subterms(a, lambda y: y == op)]
+    by_value = [a for a in about_op if a[0] in ("eq", "in") or (a[0] == "call" and isinstance(a[1], tuple) and a[1][0] == "attr" and a[1][2] in ("index", "__eq__", "count"))]
+    by_identity = [a for a in about_op if a[0] == "same"]
+    calls_index = any(find_calls(t_, "index") for p in ps for t_ in ([p.value] if p.value is not None else []) + [e.term for e in p.events if e.term is not None])
+    if not about_op and not calls_index:
+        raise AnalysisError("get_corresponding_node: no test on the given operation found (shape not read)")
+    bad = bool(by_value) or calls_index
+    rep.check(not bad and bool(by_identity), rule, construct, f.loc, found=("; ".join(sorted({show(a)[:80] for a in by_value})) or ("list.index(..) (equality)" if calls_index else "")) if bad else
+              "; ".join(sorted({show(a)[:80] for a in by_identity})), required="operation is node.operation",
+              what="the node of an operation is searched by value equality: two blocks that compare equal (same link object after a listing, equal repetition strategy) answer "
+                   "for each other, so a relation to the second block is attached to the first", detail="by-value")
 
 
 # Functions that key a table by circuit operations and have been read: the copy machinery (its exposure to value-equal sub-circuits is the recorded finding H4 / C05.K4)
